@@ -47,6 +47,26 @@ class C13(object):
         n_cases = 100 if tier == 'quick' else 1200
         for _ in range(n_cases):
             kind = rng.choice(['capacity', 'capacity', 'closed', 'rd', 'rd', 'rd-mono', 'ib', 'ib', 'capacity-joint', 'capacity-joint'])
+            if rng.random() < 0.2:
+                # the iteration itself: _blahut_arimoto from a given initial channel, cut after k sweeps
+                dist = rng.choice(['hamming', 'hamming', 'residual', 'ib', 'ib'])
+                n = rng.randint(2, 3)
+                m = n if dist != 'ib' else rng.randint(2, 3)
+                ny = rng.randint(2, 3)
+                pv, _ = gen.rand_prob_vector(rng, n * ny, 'uneven')
+                while any(p == 0 for p in pv):
+                    pv, _ = gen.rand_prob_vector(rng, n * ny, 'uneven')
+                W0 = []
+                for _i in range(n):
+                    wv, _ = gen.rand_prob_vector(rng, m, 'uneven')
+                    while any(p == 0 for p in wv):
+                        wv, _ = gen.rand_prob_vector(rng, m, 'uneven')
+                    W0.append([str(p) for p in wv])
+                if rng.random() < 0.25:
+                    W0 = [[str(Fraction(1, m))] * m for _i in range(n)]
+                yield {'kind': 'ba-iter', 'dist': dist, 'pxy': [str(p) for p in pv], 'shape': [n, ny], 'W0': W0,
+                       'beta': rng.choice([0.0, 0.5, 1.0, 2.0, 3.5, 5.0, 8.0]), 'k': rng.choice([0, 1, 2, 3, 5, 8, 100])}
+                continue
             if kind in ('capacity', 'capacity-joint'):
                 n, m = rng.randint(1, 4), rng.randint(1, 4)
                 rows = []
@@ -131,6 +151,26 @@ class C13(object):
         r.nontrivial = len(P) >= 2 and len(P[0]) >= 2 and len(set(map(tuple, P))) >= 2
         cc, pmf = channel_capacity(np.array(P))
         self.certify_capacity(drv, P, float(cc), pmf, r)
+        if not r.bad():
+            self.compare_capacity_loop(drv, P, float(cc), pmf, r)
+
+    def compare_capacity_loop(self, drv, P, cc, pmf, r):
+        """The code's own iteration (uniform start, q/r sweeps, stopping rule) against Core/CapLoop.lean. The stopping
+        index is taken from the model; when a 0.1 % change of the tolerances moves it, the case is not compared."""
+        dit = import_dit()
+        rtol, atol = dit.ditParams['rtol'], dit.ditParams['atol']
+        outs = [drv.call('capf', [fm(P), f2bits(rtol * s_), f2bits(atol * s_), 200000]) for s_ in (1.0, 1.001, 0.999)]
+        its = [o[2] for o in outs]
+        r.detail = dict(r.detail or {}, model_passes=its[0])
+        if len(set(its)) != 1 or its[0] >= 200000:
+            r.features.append('capacity-loop-not-compared')
+            return
+        mcc, mr = bits2f(outs[0][0]), [bits2f(v) for v in outs[0][1]]
+        dev = max([abs(mcc - cc)] + [abs(a - float(b)) for a, b in zip(mr, pmf)])
+        r.detail['loop_dev'] = dev
+        if not (dev <= 1e-9):
+            r.mismatch = ('channel_capacity: value / input law differ from the model of its iteration by %r after %d passes'
+                          % (dev, its[0]))
 
     def run_capacity_joint(self, case, drv, r):
         dit = import_dit()
@@ -264,6 +304,100 @@ class C13(object):
                                      'after %s' % (out, beta, prev))
                     return
             prev = out
+
+    def run_ba_iter(self, case, drv, r):
+        """Correspondence on the iteration itself: the real `_blahut_arimoto`, started from a given channel and cut after
+        k sweeps, against the model's `baIterates` (Core/BA.lean) with the code's stopping rule applied to the model's
+        own distortion sequence."""
+        from dit.rate_distortion.blahut_arimoto import _blahut_arimoto
+        from dit.rate_distortion.distortions import hamming_distortion, residual_entropy_distortion
+        n, ny = case['shape']
+        pxy = np.array([float(Fraction(v)) for v in case['pxy']]).reshape(n, ny)
+        p = pxy.sum(axis=1)
+        W0 = np.array([[float(Fraction(v)) for v in row] for row in case['W0']])
+        beta, k, dist = case['beta'], case['k'], case['dist']
+        r.features += ['dist=%s' % dist, 'k=%s' % k, 'beta=%s' % beta]
+        r.nontrivial = k >= 1 and beta > 0
+        if dist == 'hamming':
+            f = hamming_distortion
+        elif dist == 'residual':
+            f = residual_entropy_distortion
+        else:
+            pyx = pxy / p[:, None]
+
+            def f(p_x, q_t_x):
+                q = q_t_x[:, None, :] * pxy[:, :, None]
+                qty = q.sum(axis=0).T
+                with np.errstate(all='ignore'):
+                    qyt = qty / qty.sum(axis=1, keepdims=True)
+                qyt[np.isnan(qyt)] = 1
+                with np.errstate(all='ignore'):
+                    return np.array([[float(np.sum(np.where(a > 0, a * np.log2(a / b), 0.0))) for b in qyt] for a in pyx])
+            if case.get('via') != 'own':
+                # take the distortion function the library itself builds inside blahut_arimoto_ib
+                f = self.ib_distortion_of_library(pxy) or f
+        with np.errstate(all='ignore'):
+            res, q = _blahut_arimoto(p_x=p, beta=beta, q_y_x=W0.copy(), distortion=f, max_iters=k)
+        q = np.array(q, dtype=float)
+        kk = min(k, 100)
+        its = drv.call('baf', [dist, f2bits(beta), fv(p), fm(W0), kk, fm(pxy)])
+        Ws = [np.array([[bits2f(v) for v in row] for row in W]) for W, _ in its]
+        ds = [bits2f(dv) for _, dv in its]
+        # the code's loop: prev_d = 0; while not isclose(prev_d, d) and iters < max_iters
+        prev, it, ambiguous = 0.0, 0, False
+        while it < kk:
+            gapv = abs(prev - ds[it]) - (1e-8 + 1e-5 * abs(ds[it]))
+            if abs(gapv) < 1e-12:
+                ambiguous = True
+            if gapv <= 0:
+                break
+            prev, it = ds[it], it + 1
+        r.detail = {'iterations_model': it, 'd_sequence': ds[:it + 1], 'reported': [float(res.rate), float(res.distortion)]}
+        if ambiguous or not np.all(np.isfinite(Ws[it])):
+            r.features.append('ba-iter-not-compared')
+            return
+        want = p[:, None] * Ws[it]
+        dev = float(np.abs(want - q).max())
+        r.detail['max_dev'] = dev
+        if dev > 1e-9:
+            r.mismatch = '_blahut_arimoto after %d sweeps: returned joint differs from the model iterate by %r' % (it, dev)
+        elif abs(float(res.distortion) - ds[it]) > 1e-9:
+            r.mismatch = '_blahut_arimoto reports distortion %r, the model iterate has %r' % (float(res.distortion), ds[it])
+        # oracle on the real output, whatever the number of sweeps
+        if np.abs(q.sum(axis=1) - p).max() > 1e-9:
+            r.oracle_fail = 'the input marginal of the returned joint is not the source'
+            return
+        mi = bits2f(drv.call('chanf', ['jointmi', [], fm(q), []]))
+        if abs(float(res.rate) - mi) > 1e-7:
+            r.oracle_fail = 'reported rate %r but the returned joint has I = %r' % (float(res.rate), mi)
+            return
+        with np.errstate(all='ignore'):
+            dm = np.array(f(p, q / q.sum(axis=1, keepdims=True)), dtype=float)
+        if np.all(np.isfinite(dm)):
+            ed = bits2f(drv.call('chanf', ['expdist', [], fm(q), fm(dm)]))
+            if abs(float(res.distortion) - ed) > 1e-7:
+                r.oracle_fail = 'reported distortion %r but the returned joint has E[d] = %r' % (float(res.distortion), ed)
+
+    @staticmethod
+    def ib_distortion_of_library(pxy):
+        """The closure `distortion` that blahut_arimoto_ib hands to blahut_arimoto (captured, not copied)."""
+        import dit.rate_distortion.blahut_arimoto as B
+        captured = {}
+        orig = B.blahut_arimoto
+
+        def spy(p_x, beta, distortion, max_iters=100, restarts=100):
+            captured['f'] = distortion
+            n = len(p_x)
+            return orig(p_x=p_x, beta=beta, distortion=distortion, max_iters=1, restarts=1)
+        B.blahut_arimoto = spy
+        try:
+            with np.errstate(all='ignore'):
+                B.blahut_arimoto_ib(pxy, 1.0, max_iters=1, restarts=1)
+        except Exception:
+            pass
+        finally:
+            B.blahut_arimoto = orig
+        return captured.get('f')
 
     def run_ib(self, case, drv, r):
         r.features.append('max_iters=%s' % case.get('max_iters', 100))
